@@ -34,11 +34,13 @@ EXPLANATION = (
     "for status 200, and _query/_connect are called from those entry points only; R17.5 the configured password and "
     "the connection table have no writer outside the password setter resp. add/terminate/clear_connections; R17.6 "
     "backup_database/restore_backup touch the FTP client and the file system only past _can_perform_action and the "
-    "post-fix restore runs only when the fixing countdown has ended. NOT decided: that a restore of a healthy backup "
+    "post-fix restore runs only when the fixing countdown has ended; R17.7 (contradiction rule) an item whose `.deleted` flag a "
+    "function branches on comes from a look-up that can return deleted items (include_deleted=True, also through a "
+    "property), and restore_backup has such a branch - otherwise the branch that restores a deleted database file is dead. NOT decided: that a restore of a healthy backup "
     "returns the file to GOOD (health round trip through FTP and the file system), capacity boundaries under "
     "interleaved connects/disconnects, ACL/route blocking - these are behavioural."
 )
-TECHNIQUE = "static: exact status-ladder truth table of _process_connect, CFG must-pass for query/terminate gating, query-to-health-effect extraction, who-may-write"
+TECHNIQUE = "static: exact status-ladder truth table of _process_connect, CFG must-pass for query/terminate gating, query-to-health-effect extraction, who-may-write, look-up/deleted-branch contradiction check"
 ASSUMPTIONS = [
     "payloads reach the service only through DatabaseService.receive (SoftwareManager port mapping)",
     "no setattr/exec writes to the connection table or the configured password (dynamic-feature census)",
@@ -682,6 +684,62 @@ def r17_6(ctx: Ctx) -> None:
     gate(ctx, "R17.6", f, g, nodes_calling(g, ["restore_backup"]), done_edge, "restore_backup", "fixing-countdown-ended edge")
 
 
+LOOKUPS = ("get_file", "get_folder", "get_file_by_id", "get_folder_by_id")
+
+
+def _lookup_includes_deleted(ix, fn: FuncInfo, e: ast.AST, depth: int = 2) -> Optional[bool]:
+    """For an expression that yields a file-system item through a look-up: can the result be a *deleted* item?
+    True / False; None when e is not a look-up."""
+    if isinstance(e, ast.Call) and call_name(e) in LOOKUPS:
+        v = kwarg(e, "include_deleted")
+        if v is None:
+            return False
+        return not (isinstance(v, ast.Constant) and v.value is False)
+    if isinstance(e, ast.Attribute) and isinstance(e.value, ast.Name) and e.value.id == "self" and fn.cls is not None and depth > 0:
+        h = ix.find_method(fn.cls, e.attr)
+        if h is not None and h.is_property and not isinstance(h.node, ast.Lambda):
+            rets = [r.value for r in ast.walk(h.node) if isinstance(r, ast.Return) and r.value is not None]
+            vals = [_lookup_includes_deleted(ix, h, r, depth - 1) for r in rets]
+            if vals and all(v is not None for v in vals):
+                return any(vals)
+    return None
+
+
+def r17_7(ctx: Ctx) -> None:
+    """Contradiction rule (stated belief): code that branches on `<item>.deleted` believes the item may be deleted; then the
+    look-up that produced the item must be able to return deleted items.  A look-up without include_deleted=True never does, so
+    the deleted branch is dead - in restore_backup that is the branch that brings a deleted database file back."""
+    ix = ctx.ix
+    ctx.rule("R17.7", "an item whose `.deleted` flag the function branches on comes from a look-up that can return deleted items "
+                      "(include_deleted=True); restore_backup has such a branch")
+    n = 0
+    for fn in ix.functions:
+        if isinstance(fn.node, ast.Lambda) or not fn.path.startswith("src/primaite/simulator/"):
+            continue
+        tested = {x.value.id for t in ast.walk(fn.node) if isinstance(t, (ast.If, ast.While, ast.IfExp)) for x in ast.walk(t.test)
+                  if isinstance(x, ast.Attribute) and x.attr == "deleted" and isinstance(x.value, ast.Name)}
+        if not tested:
+            continue
+        ld = LocalDefs(fn.node)
+        for nm in sorted(tested):
+            vals = [v for v, i in ld.all_values(nm) if v is not None and i is None]
+            kinds = [(_lookup_includes_deleted(ix, fn, v), v) for v in vals]
+            kinds = [(k, v) for k, v in kinds if k is not None]
+            if not kinds:
+                continue  # a parameter, a loop variable ...: not produced by a look-up here
+            n += 1
+            ok = any(k for k, _ in kinds)
+            ctx.record("R17.7", ctx.key(fn, f"`{nm}.deleted` is tested on an item that may be deleted"), fn.loc(kinds[0][1]), ok,
+                       f"`{nm}` = {unparse(kinds[0][1])[:70]}" + ("" if ok else
+                       " never yields a deleted item, yet the function branches on its `.deleted` flag: the branch for a deleted item is dead"))
+    ctx.floor("R17.7", "look-up results whose deleted flag is tested", n, 1)
+    rb = ix.method("DatabaseService.restore_backup")
+    has = any(isinstance(x, ast.Attribute) and x.attr == "deleted" for t in ast.walk(rb.node) if isinstance(t, ast.If) for x in ast.walk(t.test))
+    ctx.record("R17.7", ctx.key(rb, "restore distinguishes a deleted database file"), rb.loc(), has,
+               "restore_backup branches on the file's deleted flag" if has else "restore_backup no longer handles a deleted database file")
+
+
+
 def check(ctx: Ctx) -> None:
     ix = ctx.ix
     svc = ix.enum_members(ix.cls("ServiceOperatingState"))
@@ -695,3 +753,4 @@ def check(ctx: Ctx) -> None:
     r17_4(ctx)
     r17_5(ctx)
     r17_6(ctx)
+    r17_7(ctx)
